@@ -77,6 +77,15 @@ def run(ctx, model_ok):
         if val < 0:
             continue
         cases.append({"text": f"{lit(a, sa, rng)} {op} {lit(b, sb, rng)}", "n": float(val), "tgt": sa, "kind": "arith"})
+    # literals padded with leading zeros to a fixed width (values below and beyond 2^128)
+    for _ in range(ctx.n(60, 1500)):
+        n = rng.choice([rng.getrandbits(rng.randint(1, 64)), rng.getrandbits(160), 2 ** rng.randint(120, 200) + rng.getrandbits(40), rng.getrandbits(130)])
+        src = rng.choice(["hex", "octal", "binary"])
+        b, pre, _ = BASES[src]
+        digs = {16: format(n, "x"), 8: format(n, "o"), 2: format(n, "b")}[b]
+        digs = "0" * rng.choice([1, 8, 24, 40, 80]) + digs
+        tgt = rng.choice(list(BASES))
+        cases.append({"text": f"{pre}{digs} to {tgt}", "n": float(n), "tgt": tgt, "kind": "convert"})
     # words in front of the literal whose lower / upper case has another byte length (İ, ß, ŉ): parsers that look at a case-mapped
     # copy of the line must still find the literal where it is
     for code in hexcodes[:6] + ["ff"]:
